@@ -19,4 +19,5 @@ var Checks = map[string]func(*core.Env){
 	"C06": C06,
 	"C10": C10,
 	"C08": C08,
+	"C07": C07,
 }
